@@ -16,6 +16,8 @@ EXPLANATION = ('(1) Drop for SpawnedTask calls JoinHandle::abort on every path; 
                '(called a workspace function) can return to the loop head without passing the branch that guards the yield (CFG rule on '
                'dominators and natural loops: no cycle through the loop header contains a work call and avoids the gate). '
                'Bounded time and per-drop-point behaviour are not decided.')
+# path rules cut loops after a bounded number of iterations: complete over rule instances, not over all unrollings
+EXHAUSTIVE = False
 ASSUMPTIONS = ['resolved callee names identify the spawn family', 'tokio channel send/recv participate in tokio coop budgeting']
 
 RT = 'datafusion_common_runtime::'
